@@ -186,23 +186,25 @@ pub fn check_history(h: &History, r: &mut CaseReport) {
             files.insert(d.clone(), t.clone());
         }
         let sources = crate::oal::Sources { main: h.main.clone(), files };
-        let faulty = crate::engine::catch(|| match crate::oal::load_lenient(&sources) {
-            Err(_) => true,
+        let fault: Result<Option<String>, _> = crate::engine::catch(|| match crate::oal::load_lenient(&sources) {
+            Err(e) => Some(format!("load: {e:?}")),
             Ok(mods) => {
-                let lexical = mods.locators().any(|l| {
+                let lexical = mods.locators().find_map(|l| {
                     let name = crate::oal::name_of(l);
-                    sources.files.get(&name).map_or(false, |t| !oal_syntax::parse::<_, oal_compiler::tree::Core>(l.clone(), t.clone()).1.is_empty())
+                    let errs = sources.files.get(&name).map(|t| oal_syntax::parse::<_, oal_compiler::tree::Core>(l.clone(), t.clone()).1).unwrap_or_default();
+                    errs.first().map(|e| format!("syntax in {name}: {e}"))
                 });
-                lexical || oal_compiler::eval::eval(&mods).is_err()
+                lexical.or_else(|| oal_compiler::eval::eval(&mods).err().map(|e| format!("evaluation: {e}")))
             }
         });
-        if let Ok(faulty) = faulty {
+        if let Ok(fault) = fault {
+            let faulty = fault.is_some();
             if faulty == df.is_empty() {
                 r.fail(Failure::new(
                     "c15:diagnostics-vs-verdict",
                     format!(
                         "the final program is {} but a fresh server given the final texts has {} published (and the server after the history {})",
-                        if faulty { "at fault (the in-process pipeline reports an error)" } else { "accepted by the in-process pipeline" },
+                        if faulty { format!("at fault ({})", fault.clone().unwrap_or_default().chars().take(300).collect::<String>()) } else { "accepted by the in-process pipeline".to_owned() },
                         if df.is_empty() { "no diagnostic".to_owned() } else { format!("{df:?}") },
                         if dh.is_empty() { "none either".to_owned() } else { "some".to_owned() }
                     ),
